@@ -286,6 +286,16 @@ def noteperf(ctx):
   ret = enc.node.body[-1]
   ctx.require(isinstance(ret, ast.Return) and isinstance(ret.value, ast.Tuple) and len(ret.value.elts) == 6, 'NotePerformance._encode_event: 6-tuple not found')
   comps = [cov.resolve_value(enc.node, e, ret, depth=1) for e in ret.value.elts]
+  # `major, minor = divmod(v, S)` is the same split as (v // S, v % S)
+  dm = {}
+  for s_ in U.walk_stmts(enc.node):
+    if isinstance(s_, ast.Assign) and len(s_.targets) == 1 and isinstance(s_.targets[0], ast.Tuple) and len(s_.targets[0].elts) == 2 and \
+        all(isinstance(e, ast.Name) for e in s_.targets[0].elts) and isinstance(s_.value, ast.Call) and dotted(s_.value.func) == 'divmod' and len(s_.value.args) == 2:
+      v_, s2 = s_.value.args
+      dm[s_.targets[0].elts[0].id] = ast.BinOp(left=v_, op=ast.FloorDiv(), right=s2)
+      dm[s_.targets[0].elts[1].id] = ast.BinOp(left=v_, op=ast.Mod(), right=s2)
+  comps = [dm.get(c.id, c) if isinstance(c, ast.Name) else c for c in comps]
+  comps = [dm.get(e.id, c) if isinstance(e, ast.Name) and e.id in dm else c for e, c in zip(ret.value.elts, comps)]
   denv = {}
   cin = dec.params()[1]
   for s in dec.node.body:
@@ -321,7 +331,7 @@ def noteperf(ctx):
       except (nf.NFError, KeyError):
         ok = False
     ctx.ob('NOTEPERF/' + what, dec, dret, ok, '%s: (v // S, v %% S) <-> major * S + minor with the same S and offset' % what if ok else
-           'note-performance %s: %s' % (what, why), construct='note-performance %s divmod pair' % what)
+           'note-performance %s: %s' % (what, why), construct='note-performance %s divmod pair' % what, depends=[enc])
 
   divmod_pair(0, 1, dvals[0], 'time-shift')
   divmod_pair(4, 5, dvals[3], 'duration')
@@ -333,7 +343,7 @@ def noteperf(ctx):
       ok = dec_r.equals(nf.rat(E('%s[%d].event_value' % (evp, 1 + k))))
     except nf.NFError:
       ok = False
-    ctx.ob('NOTEPERF/' + what, dec, dret, ok, '%s offset is added back by the decoder' % what if ok else 'note-performance %s: decode(encode(v)) != v' % what, construct='note-performance %s offset pair' % what)
+    ctx.ob('NOTEPERF/' + what, dec, dret, ok, '%s offset is added back by the decoder' % what if ok else 'note-performance %s: decode(encode(v)) != v' % what, construct='note-performance %s offset pair' % what, depends=[enc])
   isz = ci.methods['input_size']
   r = [s for s in U.walk_stmts(isz.node) if isinstance(s, ast.Return)]
   ok = len(r) == 1 and norm_text(r[0].value) == 'sum(self._num_classes)'
